@@ -178,6 +178,22 @@ def job_broadcast(job):
                     if got[0] != exp[0] or (got[0] == 'value' and not _mv_close(got[1], exp[1])):
                         fail({'config': cfg, 'op': name, 'what': f'number on the {side} != scalar multivector on the {side}', 'a': showmv(ak, x.values()), 'number': str(num),
                               'got': str(got)[:200], 'expected': str(exp)[:200]})
+                    # the same expression inside a registered function (the operator is then applied to recorders, not multivectors)
+                    out['evaluations'] += 1
+                    inum = int(num)            # a plain int: Fraction constants inside registered functions are C11's known finding F12
+
+                    def number_left(v):
+                        return opf(inum, v)
+
+                    def number_right(v):
+                        return opf(v, inum)
+                    reg = _safe(lambda: alg.register(number_left if side == 'left' else number_right)(x))
+                    # sums, differences and products with numbers must work there; for the other operators the recorder may raise,
+                    # but it never returns another value (C11)
+                    must = name in ('add', 'sub', 'gp')
+                    if (reg[0] == 'value' and exp[0] == 'value' and not _mv_close(reg[1], exp[1])) or (must and reg[0] != exp[0]):
+                        fail({'config': cfg, 'op': name, 'what': f'number on the {side} inside a registered function != scalar multivector on the {side}',
+                              'a': showmv(ak, x.values()), 'number': str(num), 'got': str(reg)[:200], 'expected': str(exp)[:200]})
                     for cont in (list, tuple):
                         seq = cont([x, y])
                         other = y if name not in ('div',) else x
